@@ -271,6 +271,43 @@ def _consults(p, keys, not_a_guard=()):
     return sorted(out)
 
 
+def _ws_const(e):
+    return isinstance(e, ast.Constant) and isinstance(e.value, str) and e.value.strip(" \t") == ""
+
+
+def _only_whitespace_edit(fx, fi, e):
+    """Is the new comment text the old text with whitespace inserted / whitespace replaced by whitespace?
+    Accepted: WSINS (text[:k] + ws + text[k:] of the token's own value) and chains of
+    <own text>.replace(<whitespace literal>, <whitespace literal>)."""
+    c = fx._classify_value(fi, e, ws_locals(fi))
+    if c == "WS" or c.startswith("WSINS"):
+        return True
+    src = e
+    hops = 0
+    while isinstance(src, ast.Name) and hops < 4:
+        vals = [n.value for n in walk_function(fi.node) if isinstance(n, ast.Assign) and len(n.targets) == 1 and isinstance(n.targets[0], ast.Name) and n.targets[0].id == src.id]
+        if len(vals) == 1:
+            src = vals[0]
+        elif len(vals) == 2 and all(isinstance(v, ast.Call) for v in vals[1:]) and any(isinstance(v, ast.Call) and isinstance(v.func, ast.Attribute) and v.func.attr == "get_value" for v in vals):
+            # s = tok.get_value(); s = s.replace(ws, ws)
+            src = [v for v in vals if not (isinstance(v.func, ast.Attribute) and v.func.attr == "get_value")][0]
+            if isinstance(src, ast.Call) and isinstance(src.func, ast.Attribute) and src.func.attr == "replace" and len(src.args) == 2 and all(_ws_const(a) for a in src.args):
+                return True
+            return False
+        else:
+            return False
+        hops += 1
+    while isinstance(src, ast.Call) and isinstance(src.func, ast.Attribute) and src.func.attr == "replace":
+        if not (len(src.args) == 2 and all(_ws_const(a) for a in src.args)):
+            return False
+        src = src.func.value
+    if isinstance(src, ast.Call) and isinstance(src.func, ast.Attribute) and src.func.attr == "get_value":
+        return True
+    if isinstance(src, ast.Name):
+        return _only_whitespace_edit(fx, fi, src) if src is not e else False
+    return False
+
+
 def _wholesale(fi, call):
     """Is set_tokens(arg) a replacement by a list that is not derived from the whole region? Returns a label or None."""
     a = call.args[0]
@@ -547,7 +584,10 @@ def run(ctx):
             n_rw += 1
             kk = "%s:%s" % (fi.key, what)
             if allowed_mod.search(fi.module.name):
-                r.ok("C02.rewrite", kk, "comment-formatting rule (documented whitespace normalisation of comments)")
+                if n.args and not _only_whitespace_edit(fx, fi, n.args[0]) and not r.tabled("C02.rewrite", kk):
+                    r.fail("C02.rewrite", kk, "%s %s with a text (`%s`) that is not the old text with whitespace inserted or replaced: the documented normalisations of comments are a space after `--` and tab replacement" % (fi.key, what, norm(n.args[0])[:60]), fi.loc(n))
+                else:
+                    r.ok("C02.rewrite", kk, "comment-formatting rule; the new text is the old text with whitespace inserted / replaced")
             elif not families_of(fi.key):
                 r.ok("C02.rewrite", kk, "not reachable from the fix of any live rule", sample=False, nontrivial=False)
             elif r.tabled("C02.rewrite", kk):
@@ -571,7 +611,10 @@ def run(ctx):
                     n_rw += 1
                     kk = "%s:set_value(%s) in a family configured on comment tokens" % (fi.key, norm(n.args[0])[:30])
                     if allowed_mod.search(fi.module.name):
-                        r.ok("C02.rewrite", kk, "comment-formatting rule %s (documented whitespace normalisation of comments)" % ", ".join(targets[:3]))
+                        if not _only_whitespace_edit(fx, fi, n.args[0]) and not r.tabled("C02.rewrite", kk):
+                            r.fail("C02.rewrite", kk, "comment rule %s sets a comment's text to `%s`, which is not the old text with whitespace inserted or replaced (documented normalisations: a space after `--`, tab replacement)" % (", ".join(targets[:3]), norm(n.args[0])[:60]), fi.loc(n))
+                        else:
+                            r.ok("C02.rewrite", kk, "comment-formatting rule %s; the new text is the old text with whitespace inserted / replaced" % ", ".join(targets[:3]))
                     elif r.tabled("C02.rewrite", kk):
                         r.ok("C02.rewrite", kk, "tabled", sample=False)
                     else:
@@ -673,6 +716,10 @@ VARIANTS = [
     Variant("C02", "twin: comment guard moved from region selection into analysis", "silent",
             [(_R + "remove_tokens_bounded_by_tokens_and_remove_trailing_whitespace.py", "        return [oToi for oToi in lToi if not oToi.token_type_exists(parser.comment)]", "        return lToi"),
              (_R + "remove_tokens_bounded_by_tokens_and_remove_trailing_whitespace.py", "        for oToi in lToi:\n            self.add_violation", "        for oToi in lToi:\n            if oToi.token_type_exists(parser.comment):\n                continue\n            self.add_violation")]),
+    Variant("C02", "comment_100 inserts its space with str.replace on the whole comment", "fire",
+            [(_R + "comment/rule_100.py", "        sNewToken = sToken[0 : dAction[\"index\"]] + \" \" + sToken[dAction[\"index\"] :]\n        lTokens[0].set_value(sNewToken)", "        lTokens[0].set_value(sToken.replace(sToken[0 : dAction[\"index\"]], sToken[0 : dAction[\"index\"]] + \" \"))")], rule="C02.rewrite"),
+    Variant("C02", "tab replacement in comments also collapses text", "fire",
+            [(_R + "whitespace/rule_002.py", "    sValue = sValue.replace(\"\\t\", \"  \")\n    lTokens.append(parser.comment(sValue))", "    sValue = sValue.replace(\"\\t\", \"  \").replace(\"--\", \"-- \")\n    lTokens.append(parser.comment(sValue))")], rule="C02.rewrite"),
     Variant("C02", "twin: guard written with the utils predicate", "silent",
             [(_R + "remove_carriage_return_after_token.py", "                    if isinstance(oToken, parser.comment):\n                        break\n", "                    if rules_utils.token_is_comment(oToken):\n                        break\n")]),
     Variant("C02", "twin: fix drops only whitespace from the rebuilt list", "silent",
